@@ -11,11 +11,13 @@ EXTENDS Naturals, Sequences, FiniteSets, TLC
 
 CONSTANTS Ticks, MaxAssertions
 
-\* "ancient" is the instant 0001-01-01T00:00:00Z (Go's zero time): a well-formed bound earlier than every clock
-TV == [k : {"tick"}, t : Ticks] \cup [k : {"absent", "malformed", "ancient"}, t : {0}]
-IsInstant(v) == v.k \in {"tick", "ancient"}
+\* "ancient" is a well-formed bound earlier than every clock (Go's zero time 0001-01-01T00:00:00Z, years before 1678
+\* that do not fit into 64-bit nanoseconds, the Unix epoch); "farfuture" a well-formed bound later than every clock
+\* (years after 2262 included)
+TV == [k : {"tick"}, t : Ticks] \cup [k : {"absent", "malformed", "ancient", "farfuture"}, t : {0}]
+IsInstant(v) == v.k \in {"tick", "ancient", "farfuture"}
 Reached(now, v) == v.k = "ancient" \/ (v.k = "tick" /\ now >= v.t)       \* now is at or after v
-Before(now, v)  == v.k = "tick" /\ now < v.t                             \* now is before v
+Before(now, v)  == v.k = "farfuture" \/ (v.k = "tick" /\ now < v.t)      \* now is before v
 Cfgs   == [now : Ticks]
 Inputs == [nb : TV, cnoa : TV, scs : UNION { [1..n -> TV] : n \in 1..MaxAssertions }]
 
